@@ -1,7 +1,7 @@
 /-
 The load pipeline of a rule document as an outcome function (C11): `load : SDoc → ok | err | panic`.
 
-Mirrors (pinned commit + FIX_C11_1..5; `Fixes.none` gives the pinned behaviour):
+Mirrors (pinned commit + FIX_C11_1..7, FIX_C12_1..3; `Fixes.none` gives the pinned behaviour):
   * `crates/config/src/rule/deserialize_env.rs:70-143`  `TopologicalSort::{get_order, visit}`,
                                                         `visit_dependent_rule_ids`
   * `crates/config/src/rule/deserialize_env.rs:156-172` `DeserializeEnv::with_utils`
@@ -16,7 +16,7 @@ Mirrors (pinned commit + FIX_C11_1..5; `Fixes.none` gives the pinned behaviour):
   * `crates/config/src/transform/transformation.rs:122-170`  `parse_meta_var`, `parse`, `used_vars`
   * `crates/config/src/fixer.rs:46-114`                 `Expansion::parse`, `Fixer::parse`
   * `crates/config/src/rule_core.rs:64-153`             `SerializableRuleCore::get_matcher_with_hint`
-  * `crates/config/src/rule_core.rs:193-210`            `RuleCore::defined_vars`
+  * `crates/config/src/rule_core.rs:193-225`            `RuleCore::captured_vars`, `RuleCore::defined_vars`
   * `crates/config/src/rule_config.rs:118-182`          `get_matcher`, `register_rewriters`, `try_from`
   * `crates/config/src/check_var.rs:163-200`            `check_rewriters_in_transform`
   * `potential_kinds` of every rule form (`rule/mod.rs:306-331`, `ops.rs`, `nth_child.rs`,
@@ -406,6 +406,9 @@ def parseFixer (fx : Fixes) : SFix → Res RSE Unit
 structure CoreInfo where
   /-- `RuleCore::defined_vars()` -/
   definedVars : List Name
+  /-- `RuleCore::captured_vars()`: the variables a match binds to NODES — `defined_vars()` without
+  the keys of `transform` (a transformed text is no node: a rewriter's fix does not see it) -/
+  capturedVars : List Name
   /-- rewriter ids used by its `rewrite` transformations -/
   usedRewriters : List Name
   /-- the fix template as parsed (for C12) -/
@@ -451,6 +454,8 @@ def checkInputOf (fx : Fixes) (globals : List GlobalUtil) (reg : Registry) (core
 def coreInfoOf (fx : Fixes) (reg : Registry) (core : SCore) : CoreInfo :=
   { definedVars := definedVars core.rule ++ localUtilVars reg ++
       definedVarsList (core.constraints.map (·.2)) ++ transformKeys core,
+    capturedVars := definedVars core.rule ++ localUtilVars reg ++
+      definedVarsList (core.constraints.map (·.2)),
     usedRewriters := match core.transform with
       | none => []
       | some tr => (tr.map (·.2)).flatMap STrans.usedRewriters,
@@ -544,6 +549,13 @@ def checkRewritersInTransform (core : CoreInfo) (rewriters : List (Name × CoreI
   | some r => some r
   | none => (rewriters.findSome? fun rw => firstUndefinedRewriter ids rw.2.usedRewriters)
 
+/-- the variables of the enclosing rule a rewriter's fix may use (`let vars = rule.captured_vars()`
+in `register_rewriters`).  Pinned: `rule.defined_vars()`, which also holds the keys of the rule's
+`transform` section — but a rewriter's fix looks variables up among the captured nodes only, so
+such a `$T` was accepted and replaced by nothing. -/
+def rewriterUpper (fx : Fixes) (info : CoreInfo) : List Name :=
+  if fx.rewriterCaptured then info.capturedVars else info.definedVars
+
 /-- `register_rewriters` + `check_rewriters_in_transform` -/
 def loadRewriters (fx : Fixes) (doc : SDoc) (reg : Registry) (info : CoreInfo) :
     Res LoadErr (Registry × List (Name × CoreInfo)) :=
@@ -556,7 +568,7 @@ def loadRewriters (fx : Fixes) (doc : SDoc) (reg : Registry) (info : CoreInfo) :
        | none => .ok (reg, []))
     else .ok (reg, [])
   | some rws =>
-    match registerRewriters fx doc.expando doc.globals info.definedVars rws reg [] with
+    match registerRewriters fx doc.expando doc.globals (rewriterUpper fx info) rws reg [] with
     | .err e => .err e
     | .panic s => .panic s
     | .ok (reg', done) =>
